@@ -1,8 +1,7 @@
 #!/bin/sh
-# runs every seeded change against its owning property's quick check; prints a line per change (expected exit=1)
+# runs every seeded change against its owning property's quick check (P at a time, default 4); one line per change (expected exit=1)
+# usage: tools/regress_seeded.sh [P] [file with "<id>:" lines to skip]
 cd "$(dirname "$0")/.."
-for d in seeded/*/; do
-  id=$(basename $d); pid=${id%-*}
-  out=$(VERIF_TIMEOUT_S=900 timeout 1200 tools/mut.sh $d/patch.diff $pid 2>&1 | grep "^MUT\|PATCH-FAILED" | head -1 | cut -c1-160)
-  echo "$id: $out"
-done
+P=${1:-4}; SKIP=${2:-/dev/null}
+ls -d seeded/*/ | while read d; do id=$(basename $d); grep -q "^$id:" "$SKIP" || echo "$id"; done | \
+  xargs -P "$P" -I{} sh -c 'id={}; pid=${id%-*}; out=$(VERIF_TIMEOUT_S=900 timeout 1200 tools/mut.sh seeded/$id/patch.diff $pid 2>&1 | grep "^MUT\|PATCH-FAILED" | head -1 | cut -c1-160); echo "$id: $out"'
